@@ -408,6 +408,20 @@ def match_known(known, prop, formula, node):
 class Check:
     """One invocation of bin/check for one property."""
 
+    def finish_all(self, names):
+        """Merge the deferred parts (one per family serving the property) into one evidence file and verdict."""
+        parts, self.defer = self.parts, False
+        cov = dict(states=0, transitions=0, traces_validated_against_impl=0, samples=[], families={})
+        assumptions = []
+        for name, (level, c, a) in zip(names, parts):
+            for k in ("states", "transitions", "traces_validated_against_impl"):
+                cov[k] += int(c.get(k) or 0)
+            cov["samples"] += list(c.get("samples") or [])[:3]
+            cov["families"][name] = {k: v for k, v in c.items() if k != "samples"}
+            assumptions += ["[%s] %s" % (name, x) for x in a]
+        self.samples = cov["samples"]
+        return self.finish(parts[0][0], cov, assumptions)
+
     def __init__(self, prop, tier, seed):
         self.prop, self.tier, self.seed = prop, tier, seed
         self.t0 = time.time()
@@ -462,6 +476,10 @@ class Check:
         return p
 
     def finish(self, level, coverage, assumptions=None):
+        if getattr(self, "defer", False):   # several families serve this property: collect, finish_all() writes once
+            self.parts = getattr(self, "parts", []) + [(level, dict(coverage, samples=coverage.get("samples", self.samples[:5])), list(assumptions or []))]
+            self.samples = []
+            return 0
         wall = time.time() - self.t0
         cov = dict(coverage)
         cov.setdefault("samples", self.samples[:5])
